@@ -406,6 +406,8 @@ pub fn gen_c12(rng: &mut Rng, tier: Tier) -> NetProgram {
         }
         let stages = if rng.chance(1, 2) { 1 } else { 1 + rng.below(4) as u8 };
         let mut spec = ModSpec { name: (*rng.pick(&names)).to_string(), parent, stages, panic_at: 255, ..Default::default() };
+        // a module may declare no start-up stage at all: it is never started, but it is torn down like every other
+        spec.zero_stages = rng.chance(1, 10);
         spec.scoped_build = d >= 2 && rng.chance(1, 6);
         if rng.chance(1, 2) {
             spec.beats.push(Beat { at_ns: rng.below(10) * SEC, acts: vec![Act::QueryTree] });
@@ -825,6 +827,15 @@ pub fn gen_c09(rng: &mut Rng, tier: Tier) -> NetProgram {
         if rng.chance(1, 3) {
             m.start_acts = (0..1 + rng.small(2)).map(|_| Act::Send { gate: rng.below(5) as u32, delay_ns: if rng.chance(1, 4) { 250_000_000 } else { 0 }, body: 1 }).collect();
         }
+        // a module without any start-up stage that is shut down and restarted by the n-th message it receives: the restart
+        // calls no start-up stage either
+        if rng.chance(1, 15) && m.rx.is_empty() {
+            m.zero_stages = true;
+            m.beats.clear();
+            m.tasks.clear();
+            m.start_acts.clear();
+            m.rx.push(RxRule { nth: 1 + rng.below(3) as u32, act: Act::Shutdown { restart: (rng.below(4) * 250_000_000) as i64, at: false } });
+        }
         // a module that "boots late": it requests its shutdown (with restart) from the start-up callback itself
         if rng.chance(1, 12) {
             m.start_acts.push(Act::Shutdown { restart: (1 + rng.below(4)) as i64 * 250_000_000, at: false });
@@ -927,6 +938,15 @@ pub fn gen_c13(rng: &mut Rng, tier: Tier) -> NetProgram {
     }
     for m in &mut prog.modules {
         m.tasks = crate::asy::gen_tasks_c13(rng);
+        // handlers wake the task that sends (also the handler that panics right afterwards: the task it woke does not
+        // get to run any more, exactly as if the module had fallen silent at that point)
+        if m.tasks.first().map_or(false, |t| t.steps.iter().any(|s| matches!(s, crate::asy::AStep::Emit { .. }))) {
+            for b in &mut m.beats {
+                if rng.chance(1, 2) {
+                    b.acts.insert(0, Act::NotifyTask { to: 0 });
+                }
+            }
+        }
     }
     // a joined task that panics (contained by tokio, surfaced as a JoinError of that module at the end)
     if rng.chance(1, 3) {
